@@ -537,6 +537,18 @@ def replay_file(ctx, path, binp=None):
 # ------------------------------------------------------------------------------------------------
 # I->S: trace validation by TLC
 
+def sanitize(x):
+    """TLC's JSON reader has no null: an observation that could not be taken is the string "<null>" (trace specs test
+    the accompanying ok/sane flag before they look at such a field)."""
+    if x is None:
+        return "<null>"
+    if isinstance(x, dict):
+        return {k: sanitize(v) for k, v in x.items()}
+    if isinstance(x, list):
+        return [sanitize(v) for v in x]
+    return x
+
+
 def validate_trace(ctx, name, module, events, constants=None, chunk=20000, workers=None, invariant="Check",
                    timeout=3600):
     """events: list of dicts, each with a unique "id".  TLC consumes every event (one state per event, in
@@ -552,7 +564,7 @@ def validate_trace(ctx, name, module, events, constants=None, chunk=20000, worke
         path = os.path.join(wd, f"trace{ci // chunk}.ndjson")
         with open(path, "w") as f:
             for e in part:
-                f.write(json.dumps(e, separators=(",", ":")) + "\n")
+                f.write(json.dumps(sanitize(e), separators=(",", ":")) + "\n")
         chains = max(1, min(workers * 4, len(part)))
         consts = {"Chains": chains}
         if constants:
@@ -634,7 +646,7 @@ def validate_stateful(ctx, name, module, groups, max_parallel=6, timeout=3400):
         path = os.path.join(wd, f"trace{k}.ndjson")
         with open(path, "w") as f:
             for e in evs:
-                f.write(json.dumps(e, separators=(",", ":")) + "\n")
+                f.write(json.dumps(sanitize(e), separators=(",", ":")) + "\n")
         cfg = cfg_text(postcondition="Consumed")
         res = tlc(f"{name}-{k}", module, cfg, workers=1, env_extra={"TRACE": path}, jvm=["-Xss1g", "-XX:+UseParallelGC", "-Xmx3g"],
                   timeout=timeout)
